@@ -177,7 +177,15 @@ func c19Scenario(r *R) {
 				body := strings.ToValidUTF8(a.body, "?")
 				switch cut {
 				case "short-body":
-					fmt.Fprintf(&raw, "Content-Length: %d\r\n\r\n%s", len(body)+50, body)
+					announced := len(body) + 50
+					if n%4 == 3 {
+						// a length the header parser accepts and no machine can hold
+						announced = 1 << 62
+						cutMu.Lock()
+						cuts["absurd-content-length"]++
+						cutMu.Unlock()
+					}
+					fmt.Fprintf(&raw, "Content-Length: %d\r\n\r\n%s", announced, body)
 				case "chunked-cut":
 					fmt.Fprintf(&raw, "Transfer-Encoding: chunked\r\n\r\n%x\r\n%s\r\n", len(body)+1, body+"~")
 				}
